@@ -45,7 +45,10 @@ def random_cases(rng, count):
         if rng.random() < 0.5:
             ef = rng.uniform(0.2, 4.0)
             c["exp_f"] = ef
-        wide = s not in ("PiecewiseConstant", "CubicSpline") and rng.random() < 0.15
+        # (fixed strategies only: each half window, a / 2 <= n, still lies inside one interval.  For the ADAPTIVE strategies a window
+        #  wider than the interval lets one side grow beyond an interval, and the pinned code then reaches three intervals back -
+        #  the documentation calls the window "part of the interval", so a > n is outside the documented use there and not judged)
+        wide = s in ("LinearFixed", "ExpFixed") and rng.random() < 0.3
         if wide:
             # a transition window WIDER than the interval (alpha in (1, 2] or an explicit a in n+1 .. 2n): the two halves overlap and
             # reach back into samples the previous interval has already written (seed C07j: border value read from the result array)
